@@ -208,6 +208,9 @@ func decodeBatchRecords(batch []byte, topic string, partition int32) ([]Record, 
 	}
 
 	recordsData := batch[recordBatchHeaderLen:]
+	if int64(recordCount) > int64(len(recordsData)) {
+		return nil, fmt.Errorf("record count %d exceeds batch size", recordCount)
+	}
 	reader := bytes.NewReader(recordsData)
 	records := make([]Record, 0, recordCount)
 	for i := int32(0); i < recordCount; i++ {
@@ -225,7 +228,7 @@ func decodeRecord(reader *bytes.Reader, baseOffset int64, baseTimestamp int64, t
 	if err != nil {
 		return Record{}, err
 	}
-	if length < 0 {
+	if length < 0 || int(length) > reader.Len() {
 		return Record{}, fmt.Errorf("invalid record length")
 	}
 
@@ -271,6 +274,9 @@ func decodeRecord(reader *bytes.Reader, baseOffset int64, baseTimestamp int64, t
 	if err != nil {
 		return Record{}, err
 	}
+	if headerCount < 0 || int(headerCount) > buf.Len() {
+		return Record{}, fmt.Errorf("invalid header count")
+	}
 	headers := make([]Header, 0, headerCount)
 	for i := int32(0); i < headerCount; i++ {
 		headerKeyLen, err := readVarint(buf)
@@ -311,6 +317,9 @@ func parseIndex(data []byte) ([]indexEntry, error) {
 		return nil, fmt.Errorf("invalid index magic")
 	}
 	entryCount := int(binary.BigEndian.Uint32(data[6:10]))
+	if entryCount > (len(data)-16)/12 {
+		return nil, fmt.Errorf("index entry out of bounds")
+	}
 	entries := make([]indexEntry, 0, entryCount)
 	offset := 16
 	for i := 0; i < entryCount; i++ {
@@ -359,6 +368,9 @@ func zigZagDecode(value int32) int32 {
 func readNullableBytes(reader *bytes.Reader, length int32) ([]byte, error) {
 	if length < 0 {
 		return nil, nil
+	}
+	if int(length) > reader.Len() {
+		return nil, io.ErrUnexpectedEOF
 	}
 	data := make([]byte, length)
 	if _, err := io.ReadFull(reader, data); err != nil {
